@@ -138,6 +138,26 @@ def run_property(spec, tier, seed):
             else:
                 wit_bad.append((lf, rec, rr))
 
+    # --- boundary witnesses: solver-chosen inputs on a boundary of the path (e.g. "the entire holding is sold"), replayed on
+    # the real build. An obligation refuted THERE is a counterexample on the real code (decimal residue is not modelled
+    # symbolically, so the symbolic run cannot see it).
+    bw_recs, bw_src = [], []
+    for lf in leaves:
+        for w in ((lf.get("extra") or {}).get("boundary_witnesses") or []):
+            vals = symx.model_to_values(w)
+            if vals is None or any("/" in v for v in vals.values()):
+                continue
+            bw_recs.append(values_record(by_id[lf["sk"]], vals, lf))
+            bw_src.append(lf)
+    bw_checked = 0
+    if bw_recs:
+        for lf, rec, rr in zip(bw_src, bw_recs, symx.run_replay(hp, bw_recs, pid + "-bw")):
+            bw_checked += 1
+            for rob in rr["obs"]:
+                if rob["v"] == "R" and not rob.get("ab"):
+                    reproduced.append((dict(lf, msg=rr.get("msg", "")), rob, rec, rr))
+                    break
+
     # --- classify violations
     known = findings.load()
     os.makedirs(os.path.join(EVID, "replays"), exist_ok=True)
@@ -231,6 +251,7 @@ def run_property(spec, tier, seed):
             "branch_queries_unknown": tot["unknown_branch"],
             "paths_capped": tot["capped"],
             "path_witnesses_checked": wit_ok + len(wit_bad),
+            "boundary_witnesses_replayed": bw_checked,
             "counterexamples_replayed": replayed,
             "counterexamples_reproduced": len(reproduced),
             "known_findings_hit": list(known_hits),
